@@ -209,21 +209,45 @@ def run_one(h, slot, tier_cap, mem_kb):
     uw, text = resolve_unwindset(h, target, stub)
     cbmc_args = list(h.get("cbmc_args") or []) + uw
     tmo = h.get("timeout", tier_cap)
-    cmd = ["cargo", "kani", "--target-dir", target, "--exact", "--harness", h["qual"],
-           "--no-assertion-reach-checks", "-Z", "unstable-options",
-           "--harness-timeout", f"{int(tmo)}s",
-           "-Z", "concrete-playback", "--concrete-playback=print"]
-    if stub:
-        cmd += ["-Z", "stubbing"]
-    if cbmc_args:
-        cmd += ["--cbmc-args"] + cbmc_args
+    def build_cmd(playback):
+        c = ["cargo", "kani", "--target-dir", target, "--exact", "--harness", h["qual"],
+             "--no-assertion-reach-checks", "-Z", "unstable-options",
+             "--harness-timeout", f"{int(tmo)}s"]
+        if playback:
+            c += ["-Z", "concrete-playback", "--concrete-playback=print"]
+        if stub:
+            c += ["-Z", "stubbing"]
+        if cbmc_args:
+            c += ["--cbmc-args"] + cbmc_args
+        return c
+
+    # first without concrete playback (asking for it makes the formula about three times larger);
+    # a harness that fails is run again with playback to obtain the counterexample values
+    cmd = build_cmd(False)
     rc, out, dt = sh(["bash", "-c", f"ulimit -v {mem_kb}; exec \"$@\"", "x"] + cmd,
                      timeout=tmo + 900, cwd=HARNESS_DIR)
+    first = parse_kani(out).get(h["qual"])
+    if first is not None and first["status"] == "FAILED" and first["failed"]:
+        text += f"$ {' '.join(cmd)}\n[rc={rc} {dt:.1f}s] FAILED: {first['failed'][:5]} -> re-running with concrete playback\n"
+        cmd = build_cmd(True)
+        rc, out, dt2 = sh(["bash", "-c", f"ulimit -v {mem_kb}; exec \"$@\"", "x"] + cmd,
+                          timeout=tmo + 900, cwd=HARNESS_DIR)
+        second = parse_kani(out).get(h["qual"])
+        if second is None or second["status"] != "FAILED" or not second["failed"]:
+            # keep the verdict of the first run; there are just no replay values
+            out_keep = out
+            out = out_keep
+            res_override = first
+        else:
+            res_override = None
+        dt += dt2
+    else:
+        res_override = None
     slim = "\n".join(l for l in out.splitlines()
                      if not l.startswith(("Unwinding ", "Not unwinding ")))
     text += f"$ {' '.join(cmd)}\n[rc={rc} {dt:.1f}s]\n{slim}\n"
     res = parse_kani(out)
-    r = res.get(h["qual"])
+    r = res_override if res_override is not None else res.get(h["qual"])
     if r is None:
         r = dict(status="MISSING", failed=[], checks=0, nfailed=0, time=0.0,
                  cover_sat=0, cover_total=0, raw=[])
